@@ -444,3 +444,82 @@ def p_c19(tier):
 
 
 PLANS["C19"] = p_c19
+
+# ---------------------------------------------------------------- C03 memory safety / UB
+
+
+def p_c03(tier):
+    quick = tier == "quick"
+    sh = []
+    for fam, n in (("args", 16), ("format", 16), ("ubuf", 4), ("names", 8)):
+        sh += sw_shards("bounds", "C03", tier, n, "--family", fam, asan=True, tagp="asan-bounds")
+        sh += sw_shards("bounds", "C03", tier, max(2, n // 4), "--family", fam, tagp="canary-bounds")
+    sh += sw_shards("buffers", "C03", tier, 32 if quick else 64, "--lite", 1 if quick else 0, asan=True, tagp="asan-buffers")
+    sh += sw_shards("args", "C03", tier, 24, "--lite", 1 if quick else 0, asan=True, tagp="asan-args")
+    sh += sw_shards("numeric", "C03", tier, 16, "--family", "bounds", asan=True, tagp="asan-numeric")
+    sh += sw_shards("numeric", "C03", tier, 13, "--family", "all", "--maxlen", 4 if quick else 5, asan=True, tagp="asan-numeric")
+    sh += sw_shards("describe", "C03", tier, 8, "--family", "vars", "--maxlen", 2, asan=True, tagp="asan-describe")
+    sh += sw_shards("describe", "C03", tier, 8, "--family", "shapes", "--pairs", 1, asan=True, tagp="asan-shapes")
+    sh += sw_shards("roundtrip", "C03", tier, 8, "--family", "mixes", asan=True, tagp="asan-mixes")
+    sh += sw_shards("roundtrip", "C03", tier, 8, "--family", "buffers", asan=True, tagp="asan-rt-buffers")
+    sh += sw_shards("access", "C03", tier, 8, asan=True, tagp="asan-access")
+    sh += sw_shards("tables", "C03", tier, 8, "--family", "lanes", asan=True, tagp="asan-lanes")
+    # graph scenarios under the sanitizers: all byte strings, both machines, all return codes
+    for cap in (6, 7):
+        sh.append(mcx("asan-free-cap%d" % cap, asan=True, prop="C03", table=T_AMBIG, cap=cap, shared=cap & 1, gen_mode="free", free_alpha=r"AT+=?\r\0Z,\xff",
+                      free_len=6 if quick else 8, lines=2, refuse_read=1, refuse_write=1, codes_W="OK,ERROR", codes_U="OK,ERROR,LIST", codes_R="DATA_OK", codes_T="DATA_OK", mon="C03"))
+    for ring in (1, 2):
+        sh.append(duplex("asan-duplex-r%d" % ring, ring, 1, 2, "C03", "C03", asan=True))
+    for s in c10_shards("quick", mon="C03", prop="C03"):
+        if "tok1-sh1" in s["tag"]:
+            sh.append({"tag": "asan-" + s["tag"], "bin": s["bin"].replace("mcx_", "mcxasan_"), "args": s["args"]})
+    for ring in (2, 3):
+        sh.append(mcx("asan-queue-alone-r%d" % ring, ring=ring, asan=True, prop="C03", table=T_Q, cap=12, shared=1, gen_mode="none", refuse_write=1,
+                      ecodes_R="OK,DATA_OK,DATA_NEXT", ecodes_T="OK", max_inv=1, tok=1, ev="+a:R,+b:R,+c:T,+d:R", act="trigger,queries", trig_budget=0, mon="C03"))
+    return {"shards": sh, "require": ["runs", "lines_done", "canary_checks", "overlong", "units_evt"],
+            "technique": "explicit-state exploration and exhaustive size sweeps of the real parser built with ASan+UBSan (exact-size heap blocks, report hooks) and, in the plain build, canaries and the idle-half check",
+            "bounds": "capacities 6..24 (format: 6..48) in separate, shared-even and shared-odd layouts; argument lengths 0..3*cap; unsolicited buffer 0..40 bytes; names 0..cap+2, descriptions 0..cap+2; 4*cap commands; "
+                      "variables of every type with data_size 1..64 around data_size-1/data_size/data_size+1 via plain and escaped units; all byte strings <=%d over 11 symbols; duplex, return-code and queue scenarios" % (6 if quick else 8),
+            "rule": SWEEP_RULE,
+            "assumptions": ["descriptor inside the supported domain (cap>=6, commands<=4*cap, aligned variable storage, handlers stay inside max_data_size)"]}
+
+
+PLANS["C03"] = p_c03
+
+# ---------------------------------------------------------------- C17 threads
+
+
+def thr(ring, prod, ops, opset, bound, shard=0, nshards=1):
+    return {"tag": "threads-r%d-p%d-o%d-s%d-b%d-%d" % (ring, prod, ops, opset, bound, shard), "bin": "threads_r%d" % ring,
+            "args": ["--prop", "C17", "--producers", prod, "--ops", ops, "--opset", opset, "--bound", bound, "--shard", shard, "--nshards", nshards]}
+
+
+def p_c17(tier):
+    quick = tier == "quick"
+    sh = []
+    if quick:
+        for ring in (1, 2):
+            for opset in (0, 1, 2, 3):
+                sh.append(thr(ring, 2, 3, opset, 2))
+        for i in range(4):
+            sh.append(thr(2, 3, 2, 0, 2, i, 4))
+            sh.append(thr(1, 3, 2, 3, 2, i, 4))
+    else:
+        for ring in (1, 2, 3, 8):
+            for opset in (0, 1, 2, 3):
+                sh.append(thr(ring, 2, 4, opset, 3))
+                for i in range(4):
+                    sh.append(thr(ring, 3, 3, opset, 2, i, 4))
+        for i in range(16):
+            sh.append(thr(2, 3, 2, 0, 3, i, 16))
+    return {"shards": sh, "require": ["runs"], "deadline": 150 if quick else 1500,
+            "technique": "stateless model checking of real threads: all schedules up to a preemption bound under a semaphore hand-off scheduler over the library's mutex interface, with a page-protection lockset oracle; schedules reaching an already visited (memory, thread positions, preemption count) state are not expanded again",
+            "bounds": ("2-3 producer threads x 2-3 operations (trigger, is_full, is_busy, is_hold, hold_exit mixes) + service thread over a held and a plain command with write back-pressure; preemption bound 2; queue capacity 1,2"
+                       if quick else "2 producers x 4 operations at preemption bound 3 and 3 producers x 3 operations at bound 2, four operation mixes, queue capacity 1,2,3,8; 3 producers x 2 operations at bound 3"),
+            "rule": "every case is one complete schedule of the real threads; distinct = distinct final outcomes (output bytes, accepted/refused/delivered counts)",
+            "assumptions": ["the user's lock provides mutual exclusion with acquire/release ordering; memory orderings below the mutex are not modelled",
+                            "cat_get_processed_command and cat_is_unsolicited_event_buffered are documented as unprotected and are not called",
+                            "scheduling points: lock() before acquisition, first io/handler callback inside each cat_service call, thread end; switching is also possible whenever the service thread spins without effect"]}
+
+
+PLANS["C17"] = p_c17
